@@ -1171,3 +1171,45 @@ def _defaultdict(lib, run, recv, args, kw):
     if len(args) == 1 and isinstance(args[0], LibRef) and args[0].name == 'builtins.list':
         return EmptyTabV()
     raise Unsupported('defaultdict with a factory other than list')
+
+
+@reg('np.logical_not')
+def _logical_not(lib, run, recv, args, kw):
+    a = args[0]
+    if isinstance(a, SeqV) and a.kind == 'B':
+        return SeqV('B', T.bnot(a.term))
+    if isinstance(a, BoolV):
+        return BoolV(z3.Not(a.term))
+    raise Unsupported('np.logical_not(%r)' % (a,))
+
+
+@reg('idict.items')
+def _iitems(lib, run, recv, args, kw):
+    o = run.deref(recv)
+    if o.vkind != 'mat':
+        raise Unsupported('items() of an int-keyed dict of kind %s' % o.vkind)
+    return Lazy('imap.items', payload=recv)
+
+
+@reg('idict.values')
+def _ivalues(lib, run, recv, args, kw):
+    o = run.deref(recv)
+    if o.vkind != 'mat':
+        raise Unsupported('values() of an int-keyed dict of kind %s' % o.vkind)
+    return Lazy('imap.values', payload=recv)
+
+
+@reg('list.extend')
+def _extend(lib, run, recv, args, kw):
+    o = run.deref(recv)
+    sv = lib.as_seq(run, args[0])
+    if sv is None:
+        raise Unsupported('list.extend with %r' % (args[0],))
+    cat = {'A': T.aconcat, 'R': T.rconcat, 'I': F('iconcat', ISeq, ISeq, ISeq)}[sv.kind]
+    if isinstance(o, SeqO) and o.skind == sv.kind:
+        run.set_heap(recv.loc, SeqO(o.skind, cat(o.term, sv.term)))
+        return NONE
+    if isinstance(o, ListO) and not o.items:
+        run.set_heap(recv.loc, SeqO(sv.kind, sv.term))
+        return NONE
+    raise Unsupported('list.extend on %s' % type(o).__name__)
